@@ -39,10 +39,8 @@ func isNilish(v error) bool {
 		return true
 	case *errs.Error:
 		return t == nil
-	case *fptr:
-		return t == nil
 	}
-	return false
+	return isForeignNil(v)
 }
 
 type errsArea struct {
@@ -74,7 +72,7 @@ func (a *errsArea) keys() []int {
 
 func (a *errsArea) same(ks []int, v error) string {
 	for _, k := range ks {
-		if a.vars[k] == v {
+		if sameVal(a.vars[k], v) {
 			return "#" + strconv.Itoa(k)
 		}
 	}
@@ -145,14 +143,12 @@ func (a *errsArea) desc(ks []int, v error) string {
 		}
 		sb.WriteByte(']')
 		return sb.String()
-	case *fptr:
-		if t == nil {
-			return "fn" + a.same(ks, v)
-		}
-		return "fp" + a.same(ks, v)
 	case *fwrap:
 		return "f" + a.same(ks, v) + ":" + hx.Hex([]byte(t.msg))
 	default:
+		if isForeignNil(v) {
+			return "fn" + a.same(ks, v)
+		}
 		return "p" + a.same(ks, v) + ":" + hx.Hex([]byte(v.Error()))
 	}
 }
@@ -326,9 +322,15 @@ func (a *errsArea) exec(line string) string {
 		res = (*errs.Error)(nil)
 	case f[2] == "fnil" && len(args) == 0:
 		res = (*fptr)(nil)
+	case f[2] == "fnil" && len(args) == 1: // a typed nil of another nilable kind
+		res = foreignNil(args[0])
 	case f[2] == "empty" && len(args) == 0:
 		res = &errs.Error{}
-	case f[2] == "plain" && len(args) == 1:
+	case f[2] == "plain" && len(args) == 2 && args[1] != "ptr": // a non-nil foreign error of another kind
+		if res = foreignPlain(args[1], string(hx.UnHex(args[0]))); res == nil {
+			return "bad-op"
+		}
+	case f[2] == "plain" && (len(args) == 1 || len(args) == 2):
 		res = errors.New(string(hx.UnHex(args[0])))
 	case f[2] == "new" && len(args) == 1:
 		res, creator = mkNew(string(hx.UnHex(args[0]))), "mkNew"
